@@ -40,7 +40,10 @@ VIEWS = {
     'noYMFM': (['-DUSE_YMFM_EMULATOR=OFF'], []),
     'noNP2': (['-DUSE_NP2_EMULATOR=OFF'], []),
     'noMAME2608': (['-DUSE_MAME_2608_EMULATOR=OFF'], []),
+    # the C-style vendored emulator cores themselves (default configuration; facts for the units below only)
+    'CORES': ([], []),
 }
+EMU_CORE_UNITS = ['src/chips/gens/Ym2612.cpp', 'src/chips/mame/mame_ym2612fm.c', 'src/chips/nuked/ym3438.c']
 QUICK_VIEWS = ['V0', 'V1']
 THOROUGH_VIEWS = list(VIEWS)
 
@@ -159,7 +162,7 @@ def _flags(entry):
 def extract_view(view, outdir, scratch, units=None):
     lib, tests, bdir = compile_db(view, scratch)
     _, extra = VIEWS[view]
-    want = (units or (CORE_UNITS + CHIP_WRAPPER_UNITS))
+    want = (units or (EMU_CORE_UNITS if view == 'CORES' else CORE_UNITS + CHIP_WRAPPER_UNITS))
     jobs = []
     for u in want:
         if u not in lib:
@@ -169,6 +172,8 @@ def extract_view(view, outdir, scratch, units=None):
                '--extra-arg=-resource-dir=' + RESOURCE_DIR, '--extra-arg=-w']
         for x in extra:
             cmd.append('--extra-arg=' + x)
+        if view == 'CORES':
+            cmd.append('--with-vendored')
         cmd.append(os.path.join(REPO, u))
         jobs.append((u, cmd, o))
     def work(j):
